@@ -117,6 +117,21 @@ def add_extras(case, recipe, root, exp, res):
         os.symlink("loop_a", root / "links" / "loop_b")
         os.symlink("..", root / "links" / "up")
         res.cell("extra:symlinks-dangling-and-loops")
+    if case["k"] % 5 == 3:
+        # blank-separated words that are no operator: one (unknown) identifier, named as bad and as missing - the file is read
+        (root / "words.py").write_text("# SPDX-FileCopyrightText: 2010 Words\n# SPDX-License-Identifier: Apache License 2.0\nw = 1\n")
+        exp["covered"].add("words.py")
+        exp["bad_licenses"].setdefault("Apache License 2.0", set()).add("words.py")
+        exp["missing_licenses"].setdefault("Apache License 2.0", set()).add("words.py")
+        exp["used_licenses"].add("Apache License 2.0")
+        exp["compliant"] = False
+        res.cell("extra:identifier-of-several-words")
+    if case["git"]:
+        # ignored through the user's personal ignore file only (the environment is set up in run_case)
+        (root / "personal.scratch").write_text("no header, ignored\n")
+        (root / "src").mkdir(exist_ok=True)
+        (root / "src" / "more.scratch").write_text("no header, ignored\n")
+        res.cell("extra:personal-ignore-file")
     if case["k"] % 4 == 2:
         # a FILE.license sibling stands for the file even when it is empty: the file's own header is not looked at
         (root / "shadowed.py").write_text("# SPDX-FileCopyrightText: 2009 Shadowed\n# SPDX-License-Identifier: LicenseRef-never-read\ns = 1\n")
@@ -217,6 +232,11 @@ def run_case(case, ctx):
     top = ctx.scratch / f"c01-{case['k']}"
     root = top / rootname
     try:
+        if case["git"]:
+            xdg = top / "xdg"
+            (xdg / "git").mkdir(parents=True)
+            (xdg / "git" / "ignore").write_text("*.scratch\n")
+            os.environ["XDG_CONFIG_HOME"] = str(xdg)
         unreadable = trees.build(recipe, root, ctx.state["styles"])
         exp = trees.spec_expect(recipe)
         add_extras(case, recipe, root, exp, res)
@@ -261,5 +281,6 @@ def run_case(case, ctx):
                           "licenses": [x["name"] for x in recipe["licenses"]], "expected": trees.jsonable({c: exp[c] for c in COLLS}),
                           "exit": r.exit_code}
     finally:
+        os.environ.pop("XDG_CONFIG_HOME", None)
         shutil.rmtree(top, ignore_errors=True)
     return res.out()
